@@ -132,6 +132,43 @@ def replay(scn):
                     what = "%s of %s data raised %s: %s" % (op, np.dtype(dt).name, type(ex).__name__, str(ex)[:150])
                 if what:
                     viol.append(dict(what=what, sig=signature(scn, "dtype=%s" % np.dtype(dt).name), variant="dtype=%s" % np.dtype(dt).name))
+            # skipna=True on data that hold NaNs: NumPy's nan-aware cumulative result (NaN counts as nothing)
+            fv = np.asarray(src.values, dtype=float).copy()
+            fv[np.unravel_index(0, fv.shape)] = np.nan
+            if fv.size > 2:
+                fv[np.unravel_index(fv.size - 2, fv.shape)] = np.nan
+            b = A.DimArray(fv.copy(), axes=[ax.copy() for ax in src.axes])
+            calls += 1
+            try:
+                r = getattr(b, op)(axis=d, skipna=True)
+                e = getattr(np, "nan" + op)(fv, axis=d)
+                what = None if np.array_equal(r.values, e, equal_nan=True) else "%s(skipna=True): %s, NumPy's nan%s gives %s" % (
+                    op, r.values.ravel().tolist()[:8], op, e.ravel().tolist()[:8])
+            except Exception as ex:  # noqa
+                what = "%s(skipna=True) raised %s: %s" % (op, type(ex).__name__, str(ex)[:150])
+            if what:
+                viol.append(dict(what=what, sig=signature(scn, "skipna"), variant="skipna=True"))
+        if op == "diff" and not i["keepaxis"]:
+            # boolean, unsigned and large integer data: NumPy's difference in the data's own arithmetic (values and dtype)
+            src = A.gamma(a_abs, A.LabelCodec(mixed=True), ["i"] * len(a_abs["dims"]))
+            base = np.nan_to_num(np.asarray(src.values, dtype=float))
+            for dt, vals in ((bool, (base % 2).astype(bool)), (np.uint8, ((base * 7) % 11).astype(np.uint8)),
+                             (np.int64, (base % 5).astype(np.int64) + 2 ** 62)):
+                b = A.DimArray(vals, axes=[ax.copy() for ax in src.axes])
+                calls += 1
+                try:
+                    r = b.diff(axis=d, scheme=i["scheme"], keepaxis=False, n=i["n"])
+                    e = np.diff(vals, n=i["n"], axis=d)
+                    if r.values.dtype != e.dtype:
+                        what = "diff of %s data: dtype %s, NumPy gives %s" % (np.dtype(dt).name, r.values.dtype, e.dtype)
+                    elif not np.array_equal(r.values, e):
+                        what = "diff of %s data: %s, NumPy gives %s" % (np.dtype(dt).name, r.values.ravel().tolist()[:8], e.ravel().tolist()[:8])
+                    else:
+                        what = None
+                except Exception as ex:  # noqa
+                    what = "diff of %s data raised %s: %s" % (np.dtype(dt).name, type(ex).__name__, str(ex)[:150])
+                if what:
+                    viol.append(dict(what=what, sig=signature(scn, "dtype=%s" % np.dtype(dt).name), variant="dtype=%s" % np.dtype(dt).name))
     finally:
         np.seterr(**old)
     return dict(violations=viol, calls=calls)
